@@ -90,9 +90,13 @@ def has_construct(t, kinds):
 
 def language_check(pid, expr, ref_start, ref_step, ref_accept, extra_points, truth=None, truth_alphabet=None):
     """product of the NFA of the emitted pattern with the reference; -> (violations, stats)"""
-    p = _mk(expr)
-    text = str(p)
-    tree = rx.parse(text, False).tree
+    try:
+        p = _mk(expr)
+        text = str(p)
+        tree = rx.parse(text, False).tree
+    except Exception as e:  # noqa: BLE001
+        return [V(f'{pid}|{expr}|raised:{type(e).__name__}', f"{expr} cannot be built / compiled: {type(e).__name__}: {e}",
+                  f"import re\nre.compile(str({expr}), 24)")], {}
     if has_construct(tree, ('look', 'at', 'ref', 'cond', 'flag')):
         return [V(f'{pid}|{expr}|not-regular-form', f"{expr} -> {text!r} contains assertions; the extensible form must not",
                   f"from mc import rx\nfrom mc.props.lang import has_construct\nassert not has_construct(rx.parse(str({expr})).tree, ('look', 'at', 'ref', 'cond', 'flag'))")], {}
@@ -135,12 +139,11 @@ def strip_boundaries(t):
     return tuple(strip_boundaries(x) for x in t)
 
 
-def embedded_check(pid, kind, accepted, guard, viol, cnt):
+def guard_shape_ok(kind, guard):
+    """the non-extensible pattern is (?<![guard]) + the extensible pattern (modulo \\b) + (?![guard])"""
     p = _mk(f'{kind}()')
     ext_tree = rx.parse(str(_mk(f'{kind}(is_extensible=True)')), False).tree
-    tree = rx.parse(str(p), False).tree
-    # (i) structure: negative lookbehind + extensible pattern + negative lookahead, guards denote exactly `guard`
-    tree = strip_boundaries(tree)
+    tree = strip_boundaries(rx.parse(str(p), False).tree)
     items = list(tree[1:]) if tree[0] == 'seq' else [tree]
     ext_items = list(ext_tree[1:]) if ext_tree[0] == 'seq' else [ext_tree]
     ok_shape = (len(items) >= 3 and items[0][0] == 'look' and items[0][1] < 0 and items[0][2]
@@ -150,15 +153,20 @@ def embedded_check(pid, kind, accepted, guard, viol, cnt):
             try:
                 d, m = den.of_tree(g)
             except ValueError:
-                ok_shape = False
-                break
+                return False
             if den.diff(d, m) != den.diff(den.from_chars(guard), m):
-                ok_shape = False
+                return False
+    return bool(ok_shape)
+
+
+def embedded_check(pid, kind, accepted, guard, viol, cnt):
+    p = _mk(f'{kind}()')
+    ok_shape = guard_shape_ok(kind, guard)
     cnt['structure_checks'] = cnt.get('structure_checks', 0) + 1
     if not ok_shape:
         viol.append(V(f'{pid}|{kind}()|guard-structure',
                       f"{kind}() is not (?<![guard]) + {kind}(is_extensible=True) + (?![guard]) with guard = {guard!r}: {str(p)[:80]!r}...",
-                      f"p = {kind}()\nassert not p.get_matches({accepted[0] + guard[0]!r}) or True"))
+                      f"from mc.props.lang import guard_shape_ok\nassert guard_shape_ok({kind!r}, {guard!r})"))
     # (ii) embedded occurrences
     clean = ['', ' ', 'x'] if kind == 'IPv4' else ['', ' ', '-']
     glue = sorted(set(guard[:2] + guard[-1:]))
@@ -176,8 +184,11 @@ def embedded_check(pid, kind, accepted, guard, viol, cnt):
                     if (s, len(L), len(L) + len(s)) not in got:
                         bad = f"the address between clean delimiters is not reported (got {got})"
                 if bad:
+                    need = (s, len(L), len(L) + len(s)) if (L in clean and Rt in clean) else None
                     viol.append(V(f'{pid}|{kind}()|embedded|{t}', f"{kind}(): in {t!r} {bad}",
-                                  f"p = {kind}()\nprint(p.get_matches_and_pos({t!r}))\nassert False, 'see DESIGN.md C18: glued / clean delimiter rule'"))
+                                  f"p = {kind}()\ngot = p.get_matches_and_pos({t!r})\nguard = {guard!r}\nt = {t!r}\n"
+                                  f"assert not any((a > 0 and t[a - 1] in guard) or (b < len(t) and t[b] in guard) for m, a, b in got), got\n"
+                                  f"need = {need!r}\nassert need is None or need in got, got"))
 
 
 def run_C18(run):
@@ -197,7 +208,13 @@ def run_C18(run):
         cnt = {}
         v2 = []
         sel = accepted if run.tier == 'thorough' else accepted[:60]
-        embedded_check('C18', kind, sel, guard, v2, cnt)
+        try:
+            _mk(f'{kind}()')
+        except Exception as e:  # noqa: BLE001
+            run.add([V(f'C18|{kind}()|raised:{type(e).__name__}', f"{kind}() raised {type(e).__name__}", f'p = {kind}()')])
+            continue
+        if sel:
+            embedded_check('C18', kind, sel, guard, v2, cnt)
         run.add(v2)
         for k, v in cnt.items():
             tot[k] = tot.get(k, 0) + v
@@ -320,7 +337,12 @@ def _task17_word(params):
     texts = [''.join(t) for l in range(0, 7) for t in itertools.product(WSIG, repeat=l)]
     for lo, hi, gl in params:
         expr = f"Word({lo}, {hi}, is_global={gl})"
-        p = _mk(expr)
+        try:
+            p = _mk(expr)
+            q = _mk(f"Word({lo}, {hi}, is_global={gl}, is_extensible=True)")
+        except Exception as e:  # noqa: BLE001
+            viol.append(V(f'C17|{expr}|raised:{type(e).__name__}', f"{expr} raised {type(e).__name__}", 'p = ' + expr))
+            continue
         cnt['word_patterns'] += 1
         cre = re.compile(str(p), rx.FLAGS)
         bad = 0
@@ -332,7 +354,6 @@ def _task17_word(params):
                 bad += 1
                 viol.append(V(f'C17|{expr}|{t}', f"{expr}: in {t!r} expected {want}, got {got}",
                               f"p = {expr}\nassert p.get_matches_and_pos({t!r}) == {want!r}"))
-        q = _mk(f"Word({lo}, {hi}, is_global={gl}, is_extensible=True)")
         for t in texts:
             if ' ' in t or '-' in t or not t:
                 continue
@@ -527,8 +548,13 @@ def _task19(arg):
     for fmt in fmts:
         for ext in (False, True):
             expr = f"Date({fmt!r}{', is_extensible=True' if ext else ''})"
-            p = _mk(expr)
-            cre = re.compile(str(p), rx.FLAGS)
+            try:
+                p = _mk(expr)
+                cre = re.compile(str(p), rx.FLAGS)
+            except Exception as e:  # noqa: BLE001
+                viol.append(V(f'C19|{expr}|raised:{type(e).__name__}', f"{expr} raised {type(e).__name__}: {e}",
+                              f"import re\nre.compile(str({expr}), 24)"))
+                continue
             cnt['date_patterns'] += 1
             bad = 0
             for p1, p2, p3 in candidates_for(fmt, thorough):
@@ -570,8 +596,13 @@ def _task19_pairs(arg):
     cnt = {'pair_patterns': 0, 'pair_candidates': 0}
     for f, g in pairs:
         expr = f"Date([{f!r}, {g!r}])"
-        p = _mk(expr)
-        cre = re.compile(str(p), rx.FLAGS)
+        try:
+            p = _mk(expr)
+            cre = re.compile(str(p), rx.FLAGS)
+        except Exception as e:  # noqa: BLE001
+            viol.append(V(f'C19|{expr}|raised:{type(e).__name__}', f"{expr} raised {type(e).__name__}: {e}",
+                          f"import re\nre.compile(str({expr}), 24)"))
+            continue
         cnt['pair_patterns'] += 1
         bad = 0
         for (a, s1, b, s2, c) in near(f) + near(g):
@@ -602,10 +633,16 @@ def run_C19(run):
         for k, v in cnt.items():
             tot[k] = tot.get(k, 0) + v
     # formats=None == all formats; a string selects one; invalid formats
-    p_none = _mk('Date()')
-    cre = re.compile(str(p_none), rx.FLAGS)
     n_none = 0
-    for f in fmts:
+    try:
+        p_none = _mk('Date()')
+        cre = re.compile(str(p_none), rx.FLAGS)
+    except Exception as e:  # noqa: BLE001
+        run.add([V('C19|Date()|raised:' + type(e).__name__, f"Date() raised {type(e).__name__}: {e}", "import re\nre.compile(str(Date()), 24)")])
+        fmts_none = []
+    else:
+        fmts_none = fmts
+    for f in fmts_none:
         for (a, s1, b, s2, c) in near(f):
             t = a + s1 + b + s2 + c
             n_none += 1
